@@ -200,3 +200,148 @@ Proof.
         destruct (pull_bytes RETRY_INTEGRITY_TAG_SIZE b7) as [[tag b8]|?]; cbn [bind] in H; [|discriminate].
         exact (T _ _ _ _ H).
 Qed.
+
+Lemma decode_long_type_range version bits : 0 <= decode_long_type version bits <= 3.
+Proof.
+  unfold decode_long_type, PT_INITIAL, PT_ZERO_RTT, PT_HANDSHAKE, PT_RETRY.
+  repeat match goal with |- context [if ?c then _ else _] => destruct c end; lia.
+Qed.
+
+Lemma Zlen_zero_nil {A} (l : list A) : Zlen l = 0 -> l = [].
+Proof. destruct l; [reflexivity|]. rewrite Zlen_cons. pose proof (Zlen_nonneg l). lia. Qed.
+
+(* ---- Retry: encode_quic_retry of the decoded fields (and unused = first byte & 0x0f) gives back the datagram ------ *)
+Theorem header_reencode_retry hcl bs h rest : bytes_ok bs -> pull_quic_header hcl bs = Ok (h, rest) ->
+  h_type h = PT_RETRY ->
+  exists version, h_version h = Some version /\ rest = [] /\ h_length h = Zlen bs /\ Zlen (h_tag h) = 16 /\
+    flatten (encode_quic_retry version (h_scid h) (h_dcid h) (h_token h) (hd 0 bs mod 16) (h_tag h)) = Ok bs.
+Proof.
+  intros Hb H Ht. unfold pull_quic_header in H.
+  destruct (pull_uint8 bs) as [[first b1]|?] eqn:E1; cbn [bind] in H; [|discriminate].
+  destruct (is_long_header first) eqn:IL.
+  2:{ destruct (negb (has_fixed_bit first)); [discriminate|].
+      destruct (pull_bytes hcl b1) as [[dcid b2]|?]; cbn [bind] in H; [|discriminate]. injection H as <- <-.
+      cbn [h_type] in Ht. discriminate Ht. }
+  destruct (pull_uint32 b1) as [[version b2]|?] eqn:E2; cbn [bind] in H; [|discriminate].
+  destruct (pull_uint8 b2) as [[dl b3]|?] eqn:E3; cbn [bind] in H; [|discriminate].
+  destruct (dl >? CONNECTION_ID_MAX_SIZE) eqn:C1; [discriminate|].
+  destruct (pull_bytes dl b3) as [[dcid b4]|?] eqn:E4; cbn [bind] in H; [|discriminate].
+  destruct (pull_uint8 b4) as [[sl b5]|?] eqn:E5; cbn [bind] in H; [|discriminate].
+  destruct (sl >? CONNECTION_ID_MAX_SIZE) eqn:C2; [discriminate|].
+  destruct (pull_bytes sl b5) as [[scid b6]|?] eqn:E6; cbn [bind] in H; [|discriminate].
+  unfold pull_uint8, pull_uint32 in *.
+  destruct (pull_be_inv _ _ _ _ Hb E1) as (-> & Hf & Hb1). destruct (pull_be_inv _ _ _ _ Hb1 E2) as (-> & Hv & Hb2).
+  destruct (pull_be_inv _ _ _ _ Hb2 E3) as (-> & _ & Hb3). destruct (pull_bytes_inv _ _ _ _ Hb3 E4) as (-> & Ld & _ & Hb4).
+  destruct (pull_be_inv _ _ _ _ Hb4 E5) as (-> & _ & Hb5). destruct (pull_bytes_inv _ _ _ _ Hb5 E6) as (-> & Ls & _ & Hb6).
+  change (256 ^ Z.of_nat 1) with 256 in Hf.
+  destruct (version =? 0) eqn:V0.
+  { destruct (pull_versions b6); cbn [bind] in H; [|discriminate]. injection H as <- <-. cbn [h_type] in Ht. discriminate Ht. }
+  destruct (has_fixed_bit first) eqn:FB; cbn [negb] in H; [|discriminate].
+  set (ptype := decode_long_type version (Z.shiftr (Z.land first 48) 4)) in *.
+  pose proof (decode_long_type_range version (Z.shiftr (Z.land first 48) 4)) as R. fold ptype in R.
+  assert (T : forall token tag rl b9, finish_long (Zlen (be_enc 1 first ++ be_enc 4 version ++ be_enc 1 dl ++ dcid ++ be_enc 1 sl ++ scid ++ b6))
+                version ptype dcid scid token tag rl b9 = Ok (h, rest) -> ptype = PT_RETRY).
+  { intros token tag rl b9 F. unfold finish_long in F. destruct (rl >? Zlen b9); [discriminate|]. injection F as <- <-.
+    exact Ht. }
+  destruct (ptype =? PT_INITIAL) eqn:PI.
+  { destruct (pull_uint_var b6) as [[tl b7]|?]; cbn [bind] in H; [|discriminate].
+    destruct (pull_bytes tl b7) as [[token b8]|?]; cbn [bind] in H; [|discriminate].
+    destruct (pull_uint_var b8) as [[rl b9]|?]; cbn [bind] in H; [|discriminate].
+    apply T in H. unfold PT_INITIAL, PT_RETRY in *. lia. }
+  destruct ((ptype =? PT_ZERO_RTT) || (ptype =? PT_HANDSHAKE)) eqn:PZ.
+  { destruct (pull_uint_var b6) as [[rl b7]|?]; cbn [bind] in H; [|discriminate].
+    apply T in H. unfold PT_ZERO_RTT, PT_HANDSHAKE, PT_RETRY in *. lia. }
+  destruct (pull_bytes (Zlen b6 - RETRY_INTEGRITY_TAG_SIZE) b6) as [[token b7]|?] eqn:E7; cbn [bind] in H; [|discriminate].
+  destruct (pull_bytes RETRY_INTEGRITY_TAG_SIZE b7) as [[tag b8]|?] eqn:E8; cbn [bind] in H; [|discriminate].
+  pose proof (T _ _ _ _ H) as PR.
+  destruct (pull_bytes_inv _ _ _ _ Hb6 E7) as (-> & Lt & _ & Hb7). destruct (pull_bytes_inv _ _ _ _ Hb7 E8) as (-> & Lg & _ & Hb8).
+  unfold RETRY_INTEGRITY_TAG_SIZE in *. rewrite !Zlen_app in Lt.
+  assert (b8 = []) by (apply Zlen_zero_nil; lia). subst b8.
+  unfold finish_long in H. change (0 >? Zlen (@nil Z)) with false in H. injection H as <- <-.
+  cbn [h_version h_length h_tag h_scid h_dcid h_token].
+  assert (B1 : be_enc 1 first = [first]).
+  { cbn [be_enc]. change (256 ^ Z.of_nat 0) with 1. rewrite Z.div_1_r, Z.mod_small by lia. reflexivity. }
+  exists version. rewrite B1. cbn [app hd]. change (Zlen (@nil Z)) with 0.
+  split; [reflexivity|]. split; [reflexivity|].
+  split; [repeat rewrite ?Zlen_cons, ?Zlen_app, ?be_enc_Zlen; change (Zlen (@nil Z)) with 0; lia|]. split; [exact Lg|].
+  unfold encode_quic_retry. unfold ptype in PR. rewrite (retry_first_byte_inv first version Hf IL FB PR).
+  cbn [lift_first]. unfold push_uint8, push_uint32, push_bytes. rewrite Ld, Ls, B1.
+  change (first :: be_enc 4 version ++ be_enc 1 dl ++ dcid ++ be_enc 1 sl ++ scid ++ token ++ tag ++ [])
+    with ([first] ++ be_enc 4 version ++ be_enc 1 dl ++ dcid ++ be_enc 1 sl ++ scid ++ token ++ tag ++ []).
+  repeat apply flatten_cons_ok. reflexivity.
+Qed.
+
+(* ---- 1-RTT: the decoder returns only the DCID (host_cid_length bytes after the first byte); spin bit, key phase,
+        reserved bits and packet-number length are not returned: any builder header for that DCID decodes to the same
+        fields ------------------------------------------------------------------------------------------------- *)
+Lemma long_header_type hcl bs h rest first b1 : pull_uint8 bs = Ok (first, b1) -> is_long_header first = true ->
+  pull_quic_header hcl bs = Ok (h, rest) -> 0 <= h_type h <= 4.
+Proof.
+  intros E1 IL H. unfold pull_quic_header in H. rewrite E1 in H. cbn [bind] in H. rewrite IL in H.
+  destruct (pull_uint32 b1) as [[version b2]|?]; cbn [bind] in H; [|discriminate].
+  destruct (pull_uint8 b2) as [[dl b3]|?]; cbn [bind] in H; [|discriminate].
+  destruct (dl >? CONNECTION_ID_MAX_SIZE); [discriminate|].
+  destruct (pull_bytes dl b3) as [[dcid b4]|?]; cbn [bind] in H; [|discriminate].
+  destruct (pull_uint8 b4) as [[sl b5]|?]; cbn [bind] in H; [|discriminate].
+  destruct (sl >? CONNECTION_ID_MAX_SIZE); [discriminate|].
+  destruct (pull_bytes sl b5) as [[scid b6]|?]; cbn [bind] in H; [|discriminate].
+  destruct (version =? 0).
+  { destruct (pull_versions b6); cbn [bind] in H; [|discriminate]. injection H as <- <-. cbn [h_type].
+    unfold PT_VERSION_NEGOTIATION. lia. }
+  destruct (negb (has_fixed_bit first)); [discriminate|].
+  pose proof (decode_long_type_range version (Z.shiftr (Z.land first 48) 4)) as R.
+  set (ptype := decode_long_type version (Z.shiftr (Z.land first 48) 4)) in *.
+  assert (T : forall token tag rl b9, finish_long (Zlen bs) version ptype dcid scid token tag rl b9 = Ok (h, rest) ->
+                0 <= h_type h <= 4).
+  { intros token tag rl b9 F. unfold finish_long in F. destruct (rl >? Zlen b9); [discriminate|]. injection F as <- <-.
+    cbn [h_type]. lia. }
+  destruct (ptype =? PT_INITIAL).
+  { destruct (pull_uint_var b6) as [[tl b7]|?]; cbn [bind] in H; [|discriminate].
+    destruct (pull_bytes tl b7) as [[token b8]|?]; cbn [bind] in H; [|discriminate].
+    destruct (pull_uint_var b8) as [[rl b9]|?]; cbn [bind] in H; [|discriminate]. exact (T _ _ _ _ H). }
+  destruct ((ptype =? PT_ZERO_RTT) || (ptype =? PT_HANDSHAKE)).
+  { destruct (pull_uint_var b6) as [[rl b7]|?]; cbn [bind] in H; [|discriminate]. exact (T _ _ _ _ H). }
+  destruct (pull_bytes (Zlen b6 - RETRY_INTEGRITY_TAG_SIZE) b6) as [[token b7]|?]; cbn [bind] in H; [|discriminate].
+  destruct (pull_bytes RETRY_INTEGRITY_TAG_SIZE b7) as [[tag b8]|?]; cbn [bind] in H; [|discriminate].
+  exact (T _ _ _ _ H).
+Qed.
+
+Theorem header_reencode_short hcl bs h rest spin kp pn after : bytes_ok bs -> pull_quic_header hcl bs = Ok (h, rest) ->
+  h_type h = PT_ONE_RTT -> (spin = 0 \/ spin = 1) -> (kp = 0 \/ kp = 1) ->
+  h_version h = None /\ Zlen (h_dcid h) = hcl /\ h_length h = Zlen bs /\
+  h_scid h = [] /\ h_token h = [] /\ h_tag h = [] /\ h_versions h = [] /\
+  exists h0 pnb, flatten (builder_short_header spin kp (h_dcid h) pn) = Ok (h0 ++ pnb) /\ Zlen pnb = 2 /\
+    pull_quic_header hcl (h0 ++ pnb ++ after) =
+      Ok (mkHeader None PT_ONE_RTT (Zlen (h0 ++ pnb ++ after)) (h_dcid h) [] [] [] [], pnb ++ after).
+Proof.
+  intros Hb H Ht Hs Hk.
+  destruct (pull_uint8 bs) as [[first b1]|?] eqn:E1; [|unfold pull_quic_header in H; rewrite E1 in H; discriminate].
+  destruct (is_long_header first) eqn:IL.
+  { pose proof (long_header_type _ _ _ _ _ _ E1 IL H) as R. rewrite Ht in R. unfold PT_ONE_RTT in R. lia. }
+  unfold pull_quic_header in H. rewrite E1 in H. cbn [bind] in H. rewrite IL in H.
+  destruct (negb (has_fixed_bit first)); [discriminate|].
+  destruct (pull_bytes hcl b1) as [[dcid b2]|?] eqn:E2; cbn [bind] in H; [|discriminate]. injection H as <- <-.
+  unfold pull_uint8 in E1. destruct (pull_be_inv _ _ _ _ Hb E1) as (-> & _ & Hb1).
+  destruct (pull_bytes_inv _ _ _ _ Hb1 E2) as (-> & Ld & _ & _).
+  cbn [h_version h_dcid h_length h_scid h_token h_tag h_versions]. repeat split; auto.
+  destruct (builder_short_roundtrip spin kp dcid pn after Hs Hk) as (h0 & pnb & F & Lp & P).
+  exists h0, pnb. rewrite <- Ld. auto.
+Qed.
+
+(* what is NOT preserved, on one Initial packet (first byte c3: packet-number-length bits 11; token length on two
+   bytes 40 01; Length on four bytes 80 00 00 03): the builder writes c1, 01 and 40 03 -- 12 header bytes instead of 15,
+   same version / type / DCID / SCID / token / Length value.  And the builder's Length field is 2 bytes: a decoded
+   Length of 16384 cannot be rebuilt (push_uint16(16384 | 0x4000) is 40 00, which reads back as 0). *)
+Definition w_initial : list Z := [195; 0; 0; 0; 1; 1; 170; 0; 64; 1; 85; 128; 0; 0; 3; 1; 2; 3].
+
+Theorem header_reencode_not_canonical_refuted :
+  pull_quic_header 0 w_initial = Ok (mkHeader (Some 1) PT_INITIAL 18 [170] [] [85] [] [], [1; 2; 3]) /\
+  (exists b, flatten (builder_long_header 1 PT_INITIAL [170] [] [85] 3 258) = Ok b /\ Zlen b = 14 /\
+             b <> firstn 14 w_initial /\
+             pull_quic_header 0 (b ++ [3]) = Ok (mkHeader (Some 1) PT_INITIAL 15 [170] [] [85] [] [], [1; 2; 3])) /\
+  (push_uint16 (Z.lor 16384 16384) = Ok [64; 0] /\ pull_uint_var [64; 0] = Ok (0, [])).
+Proof.
+  split; [vm_compute; reflexivity|]. split; [|split; vm_compute; reflexivity].
+  eexists. split; [vm_compute; reflexivity|]. split; [vm_compute; reflexivity|].
+  split; [intros X; discriminate X|vm_compute; reflexivity].
+Qed.
